@@ -12,12 +12,14 @@ package zipslicer
 //@ func Read
 //@   property C11
 //@   nopanic
+//@   ensures @directory_present_on_success ret1 == nil ==> ret0 != nil
 //@   requires r != nil
 //@   allocbound 0 size + 65536
 //@
 //@ func ReadWithDirectory
 //@   property C11
 //@   nopanic
+//@   ensures @directory_present_on_success ret1 == nil ==> ret0 != nil
 //@   allocbound 0 262144
 //@   loop 1 sig "for len(extra) >= 4" invariant len(extra) <= 65535
 //@
